@@ -11,12 +11,8 @@ try:
     print("regenerated:", gen_consts.generate(None))
 except Exception as e:  # the checks report this themselves
     print("generation problem:", e)
-ok, out = vlib.lake_build(("ssdriver",))
-print(out[-2000:])
-if not ok:
-    sys.exit(1)
 props = [c["property_id"] for c in json.loads((vlib.ROOT / "MANIFEST.json").read_text())["checks"]]
 for p in props:
-    ok, out = vlib.lake_build((f"SSVerif.Props.{p}",))
+    ok, out = vlib.lake_build((f"SSVerif.Props.{p}",) + tuple(f"ssdriver-{x}" for x in vlib.drivers_of(p)))
     print(p, "ok" if ok else "FAILED\n" + out[-1500:])
 print("repo build:", vlib.build_repo("asan"))
